@@ -371,18 +371,34 @@ PROPS["C16"] = {
     "level_note": "Trusted: Lean kernel; extractor; third-party parsers; harness worker supervision.",
 }
 PROPS["C18"] = {
-    "lean": "Props.C18", "domains": [{"name": "race"}], "race": True,
-    "trusted": ["phase and confinement classification in extract2/classify.go (which functions run only while the program is single-threaded, which "
-                "objects are fresh per call / per command) — validated by the race-detector runs, not proved; syntactic, intraprocedural lockset "
-                "(a mutex counts as held from its Lock() statement to Unlock(), path-insensitive except for blocks that return)"],
-    "assumptions": ["partial by scope: a discipline proof over the extracted abstraction, not the Go memory model; third-party code and accesses through "
-                    "closures/interfaces are not in the table; the race search is bounded by the workloads of domain `race`"],
-    "level_text": "Theorem (decide over the regenerated access table): any two run-phase accesses to one non-confined field of which one is a write hold a "
-                  "common mutex, or the field is ordered by the done channel (C01_shared gives that order); every such write is under a mutex; the loop "
-                  "definition (rows included) is copied before matrix refs are resolved. Tie/search: the harness is built with -race and runs concurrent "
-                  "workloads (matrix refs from parallel deps, prefixed/group output, dynamic vars, dedup, includes, --parallel); a race report is a "
-                  "violation with the report as replay.",
-    "level_note": "Trusted: Lean kernel; typed extractor and its classification; Go race detector for the search half.",
+    "lean": "Props.C18", "domains": [{"name": "race", "timeout": 5400}], "race": True, "cli_race": "always",
+    "trusted": ["static call graph of extract2/callgraph.go (go/types: direct and method calls, interface calls resolved to every implementing method of "
+                "the module, function values counted as called where they are taken, concrete values converted to an interface give their methods to the "
+                "converting function); what it cannot see — reflection on fields of a converted value, unsafe, linkname, cgo — is trusted absent. The NAME-based "
+                "phase classification of extract2/classify.go is no longer trusted: it is a claim checked against that graph (setup_edges_reviewed, "
+                "no_setup_function_in_run_phase; three reviewed edges with written reasons); the confined-type list is checked by a syntactic escape search "
+                "(confined_no_escape) and the 'fresh copy' bases by copy / aliasing facts (compiled_task_holds_copies, copiers_return_fresh); what stays a "
+                "reviewed statement: the (function, base) confinement pairs of isConfinedBase and that a per-call object reached through a parameter is not "
+                "shared by the caller",
+                "syntactic, intraprocedural lockset (a mutex counts as held from its Lock() statement to Unlock(), path-insensitive except for blocks that "
+                "return); the thread model of TaskModel.Race.Threads abstracts goroutines to straight-line sequences of lock / unlock / access / close / recv"],
+    "assumptions": ["partial by scope: the all-schedules theorem is about the extracted abstraction (field-granular locations, straight-line bodies, sync.Mutex and "
+                    "one closed `done` channel), not the Go memory model; third-party code and accesses through closures/interfaces are not in the table; the race "
+                    "search is bounded by the generated workloads of domain `race` and by the schedules that happen (perturbed by seeded delays at the hook points)"],
+    "level_text": "Theorems. (1) C18_no_race_state / C18_chan_ordered (TaskModel.Race.Threads): in a model of any number of threads running sequences of "
+                  "lock / unlock / access / close / recv under mutex and channel semantics, if every two conflicting access positions share a statically held "
+                  "mutex (heldAt: locked and not yet unlocked — the extractor's rule) or are ordered by the close of a channel, then NO state reachable by any "
+                  "interleaving of any length has two threads at conflicting accesses (invariant: m in heldAt t <-> owner m = t). (2) C18_lockset (decide over "
+                  "the regenerated access table) + C18_no_race_state_table / C18_no_race_state_rows: the table of the current tree keeps that discipline, so any "
+                  "program whose access positions are its rows — in particular any number of threads running the critical sections of any rows — has no race "
+                  "state. (3) Obligations that tie the table's inputs to the source: setup_edges_reviewed and no_setup_function_in_run_phase (call graph vs. "
+                  "phase claims: a lazily initialised field shows as a new edge and its accesses enter the table), confined_no_escape, copiers_return_fresh, "
+                  "compiled_task_holds_copies, chanSync_is / chanSync_ordered (the done-channel exemption is computed from ordering facts about startExecution), "
+                  "C18_matrix_rows_private. Tie/search: a seeded generator composes Taskfiles from ~40 features (unknown names, fingerprints, shared dirs, sh: "
+                  "vars, dotenv, wildcards, aliases, prefixes, defers, run: once incl. cycles, includes, matrices, flags) so that >= 2 activations touching the "
+                  "same structure run concurrently, under GOMAXPROCS 1..16 and concurrency limits 0..N; every workload runs in a worker process under the race "
+                  "detector, in-process with seeded delays (-tags verif) and through the -race CLI (no tag); a report is a violation whose replay is the workload.",
+    "level_note": "Trusted: Lean kernel; typed extractor incl. its call-graph construction and lockset rules; Go race detector for the search half.",
 }
 
 
